@@ -146,7 +146,126 @@ def runLA (p : Parsed) : String :=
         showOk s1.pc.toNat changed [] s1.writes
     body ++ " | " ++ i.name
 
+/-! ## whole-machine stream: the reference side of `wemu.NewWEmu(prog).Run()`
+
+`vm <arch> text=<addr>:<hex> [data=<addr>:<hex>] [win=<addr>:<len>]..`
+Platform constants are the documented ones (QEMU-virt style): DRAM of 16 MiB at 0x80000000 (RISC-V)
+/ 0x120000000 (LoongArch), power device at 0x100000 (0x5555 = exit ok, 0x3333 = exit fail), UART
+transmit register at 0x10000000; reset state: pc = start of text, stack pointer (x2 / r3) = end of
+DRAM, every other register 0.  Only the listed windows (zero-filled) plus text and data are memory
+for the reference: a program touching anything else faults here. -/
+
+def powerBase : Nat := 0x100000
+def uartBase : Nat := 0x10000000
+def dramSize : Nat := 16 * 1024 * 1024
+
+structure VmParsed where
+  arch : String
+  text : Nat := 0
+  cells : List (Nat × Byte) := []
+  wins : List (Nat × Nat) := []
+
+def parseVmArg (p : VmParsed) (a : String) : Option VmParsed :=
+  match a.splitOn "=" with
+  | [k, v] =>
+    match v.splitOn ":" with
+    | [ad, rest] => do
+      let addr ← hexNat ad
+      if k = "text" then
+        let bs ← parseHex rest
+        pure { p with text := addr, cells := p.cells ++ bytesAt addr bs }
+      else if k = "data" then
+        let bs ← parseHex rest
+        pure { p with cells := p.cells ++ bytesAt addr bs }
+      else if k = "win" then
+        let n ← rest.toNat?
+        pure { p with wins := p.wins ++ [(addr, n)] }
+      else none
+    | _ => none
+  | _ => none
+
+def vmMem (p : VmParsed) : Mem :=
+  let dev := bytesAt powerBase [0, 0, 0, 0] ++ bytesAt uartBase [0]
+  let zeros := p.wins.flatMap fun (a, n) => bytesAt a (List.replicate n 0)
+  ⟨dev ++ p.cells ++ zeros⟩
+
+def showVm (status : String) (pc : Nat) (rd : Nat → Nat) (mem : Mem) (writes : List (Nat × Byte))
+    (wins : List (Nat × Nat)) : String :=
+  let xs := (List.range 32).filterMap fun i =>
+    if i ≠ 0 ∧ rd i ≠ 0 then some (toString i ++ ":" ++ natHex (rd i)) else none
+  let uart := (writes.reverse.filter (·.1 = uartBase)).map (·.2.toNat)
+  let ms := wins.map fun (a, n) =>
+    natHex a ++ ":" ++ String.join ((List.range n).map fun k =>
+      match mem.read1 (a + k) with
+      | some b => pad 2 (natHex b.toNat)
+      | none => "??")
+  "halt " ++ status ++ " pc=" ++ natHex pc ++ " x=" ++ joinOr xs ++ " uart=" ++ toHex uart ++ " mem="
+    ++ (if ms.isEmpty then "-" else ";".intercalate ms)
+
+def powerStatus (m : Mem) : Option String :=
+  match m.readLE 64 powerBase 4 with
+  | some 0x5555 => some "ok"
+  | some 0x3333 => some "fail"
+  | _ => none
+
+def runRVvm (n : Nat) (wins : List (Nat × Nat)) : Nat → RVState n → Nat → String
+  | 0, _, steps => s!"fuel | steps={steps}"
+  | fuel + 1, s, steps =>
+    match powerStatus s.mem with
+    | some st => showVm st s.pc.toNat (fun i => (s.rd (BitVec.ofNat 5 i)).toNat) s.mem s.writes wins ++ s!" | steps={steps}"
+    | none =>
+      match s.mem.readLE n s.pc.toNat 4 with
+      | none => s!"fault | fetch steps={steps}"
+      | some w =>
+        match decode n (BitVec.ofNat 32 w) with
+        | none => s!"nospec | steps={steps}"
+        | some i =>
+          let s1 := specStep s i
+          match s1.trap with
+          | some .fault => s!"fault | {i.name} steps={steps}"
+          | some .misaligned => s!"misaligned | {i.name} steps={steps}"
+          | none => runRVvm n wins fuel s1 (steps + 1)
+
+def runLAvm (wins : List (Nat × Nat)) : Nat → LA.LAState → Nat → String
+  | 0, _, steps => s!"fuel | steps={steps}"
+  | fuel + 1, s, steps =>
+    match powerStatus s.mem with
+    | some st => showVm st s.pc.toNat (fun i => (s.rd (BitVec.ofNat 5 i)).toNat) s.mem s.writes wins ++ s!" | steps={steps}"
+    | none =>
+      match s.mem.readLE 64 s.pc.toNat 4 with
+      | none => s!"fault | fetch steps={steps}"
+      | some w =>
+        match LA.decode (BitVec.ofNat 32 w) with
+        | none => s!"nospec | steps={steps}"
+        | some i =>
+          let s1 := LA.specStep s i
+          match s1.trap with
+          | some _ => s!"fault | {i.name} steps={steps}"
+          | none => runLAvm wins fuel s1 (steps + 1)
+
+def handleVm (args : List String) : String :=
+  match args with
+  | arch :: rest =>
+    match rest.foldl (fun acc a => acc.bind fun p => parseVmArg p a) (some ({ arch := arch } : VmParsed)) with
+    | none => "bad-op | "
+    | some p =>
+      let fuel := 200000
+      if arch = "la64" then
+        let sp := 0x120000000 + dramSize
+        runLAvm p.wins fuel { r := fun r => if r = 3 then BitVec.ofNat 64 sp else 0, pc := BitVec.ofNat 64 p.text, mem := vmMem p } 0
+      else if arch = "rv64" then
+        runRVvm 64 p.wins fuel { x := fun r => if r = 2 then BitVec.ofNat 64 (0x80000000 + dramSize) else 0,
+                                 pc := BitVec.ofNat 64 p.text, mem := vmMem p } 0
+      else if arch = "rv32" then
+        runRVvm 32 p.wins fuel { x := fun r => if r = 2 then BitVec.ofNat 32 (0x80000000 + dramSize) else 0,
+                                 pc := BitVec.ofNat 32 p.text, mem := vmMem p } 0
+      else "bad-op | "
+  | _ => "bad-op | "
+
 def handle (line : String) : String :=
+  match words line with
+  | "vm" :: args => handleVm args
+  | _ =>
   match parseLine line with
   | none => "bad-op | "
   | some p =>
